@@ -32,23 +32,25 @@ def C05_msgset_roundtrip_stmt : Prop :=
 
 /-- **Nested sets, any depth, any decompressor output**: whenever the protocol says what a message set
     contains (`expectedSet … = some g`: every wrapper's payload decompresses to bytes that parse as a
-    message set, to the nesting depth given), the decoder yields exactly that.
-    PROVED for sets whose wrappers are one level deep and hold what the grammar itself encodes
-    (`C05_gzip_roundtrip_partial`); open for depth ≥ 2 and for payloads only known to PARSE under the
-    grammar (that needs the converse law `enc (dec b) = b` of the grammar, which is not proved). -/
-def C05_gzip_roundtrip : Prop :=
+    message set, to the nesting depth given), the decoder (given one more level of recursion budget
+    than the nesting) yields exactly that. -/
+def C05_gzip_roundtrip_stmt : Prop :=
   ∀ (ext : Ext) (depth : Nat) (entries : List (Int × Spec.Msg)) (g : Gen),
     expectedSet ext.crc (fun b => (ext.gunzip (some b)).toOption) depth entries = some g →
     decodeMessageSet ext (depth + 1) ((Spec.messageSet ext.crc).enc entries) = g
 
-def C05_fetch_v0_roundtrip : Prop :=
+/-- Fetch v0 with ANY record sets (plain, compressed, nested): the monitor's expectation is met.
+    (The decoder's recursion budget is one more than the nesting depth the expectation looks at; an
+    earlier draft of this statement used the same number on both sides, which is false for sets nested
+    exactly that deep — the model then reports its `fuel` error.) -/
+def C05_fetch_v0_roundtrip_stmt : Prop :=
   ∀ (ext : Ext) (depth : Nat) v e,
-    expectedFetchV0 ext.crc (fun b => (ext.gunzip (some b)).toOption) (depth + 1) v = some (e, true) →
+    expectedFetchV0 ext.crc (fun b => (ext.gunzip (some b)).toOption) depth v = some (e, true) →
     finished (decodeFetchResponse ext (depth + 1) ((Spec.fetchResponseV0 ext.crc).enc v) 0) e
 
-def C05_fetch_v2_roundtrip : Prop :=
+def C05_fetch_v2_roundtrip_stmt : Prop :=
   ∀ (ext : Ext) (depth : Nat) v e,
-    expectedFetchV2 ext.crc (fun b => (ext.gunzip (some b)).toOption) (depth + 1) v = some (e, true) →
+    expectedFetchV2 ext.crc (fun b => (ext.gunzip (some b)).toOption) depth v = some (e, true) →
     finished (decodeFetchResponse ext (depth + 1) ((Spec.fetchResponseV2 ext.crc).enc v) 2) e
 
 def C05_list_offsets_roundtrip_stmt : Prop :=
